@@ -41,7 +41,7 @@ def correspondence(ctx, model_ok=True):
     rng = ctx.rng.fork("c10")
     failures = []
     broken = []
-    n_gen = 1200 if ctx.thorough else 360
+    n_gen = 2400 if ctx.thorough else 360
     gen = progs.generated(rng, PROFILES, n_gen)
     scripts = progs.corpus_scripts()
     # plus every constructed-oracle scenario of the other checks and the collector probes: the programs in which stack discipline,
